@@ -55,29 +55,35 @@ Definition kind_dec0 (k : nkind) : option rdec :=
     end
   end.
 
-Definition rdec_eqb_shallow (a b : option rdec) : bool :=
-  match a, b with
-  | None, None => true
-  | Some x, Some y =>
-    Bool.eqb (rd_random x) (rd_random y) && str_eqb (rd_operand x) (rd_operand y)
-    && match rd_wait x, rd_wait y with
-       | WNone, WNone | WMsg, WMsg => true
-       | WTimeout s c, WTimeout s' c' => N.eqb s s' && str_eqb c c'
-       | _, _ => false
-       end
-    && match rd_result x, rd_result y with None, None => true | Some u, Some v => str_eqb u v | _, _ => false end
-    && Nat.eqb (length (rd_cases x)) (length (rd_cases y))
-    && forallb (fun p => str_eqb (fst (fst (fst p))) (fst (fst (snd p))) && ostr_list_eqb (snd (fst (fst p))) (snd (fst (snd p)))
-                         && Nat.eqb (snd (fst p)) (snd (snd p))) (combine (rd_cases x) (rd_cases y))
-    && Nat.eqb (length (rd_cats x)) (length (rd_cats y))
-    && forallb (fun p => match fst (fst p), fst (snd p) with
-                         | CWild, CWild => true | CFixed u, CFixed v => str_eqb u v | _, _ => false end
-                         && match snd (fst p), snd (snd p) with DNone, DNone => true | _, _ => false end)
-               (combine (rd_cats x ++ [rd_default x] ++ match rd_noresp x with Some z => [z] | None => [] end)
-                        (rd_cats y ++ [rd_default y] ++ match rd_noresp y with Some z => [z] | None => [] end))
-    && Bool.eqb (match rd_noresp x with Some _ => true | None => false end) (match rd_noresp y with Some _ => true | None => false end)
+(* boolean equality of initial decisions *)
+Fixpoint list_eqb {X} (eqb : X -> X -> bool) (l l' : list X) : bool :=
+  match l, l' with
+  | [], [] => true
+  | a :: r, b :: r' => eqb a b && list_eqb eqb r r'
   | _, _ => false
   end.
+Definition cname_eqb (a b : cname) : bool :=
+  match a, b with CWild, CWild => true | CFixed u, CFixed v => str_eqb u v | _, _ => false end.
+Definition dest_eqb (a b : dest) : bool :=
+  match a, b with DNone, DNone => true | DHard, DHard => true | DNode i, DNode j => Nat.eqb i j | _, _ => false end.
+Definition catd_eqb (a b : cname * dest) : bool := cname_eqb (fst a) (fst b) && dest_eqb (snd a) (snd b).
+Definition wait_eqb (a b : wait_spec) : bool :=
+  match a, b with
+  | WNone, WNone | WMsg, WMsg => true
+  | WTimeout s c, WTimeout s' c' => N.eqb s s' && str_eqb c c'
+  | _, _ => false
+  end.
+Definition ostr_eqb (a b : option str) : bool :=
+  match a, b with None, None => true | Some u, Some v => str_eqb u v | _, _ => false end.
+Definition rcase_eqb (a b : str * list (option str) * nat) : bool :=
+  str_eqb (fst (fst a)) (fst (fst b)) && list_eqb ostr_eqb (snd (fst a)) (snd (fst b)) && Nat.eqb (snd a) (snd b).
+Definition rdec_eqb (x y : rdec) : bool :=
+  Bool.eqb (rd_random x) (rd_random y) && str_eqb (rd_operand x) (rd_operand y) && wait_eqb (rd_wait x) (rd_wait y)
+  && ostr_eqb (rd_result x) (rd_result y) && list_eqb rcase_eqb (rd_cases x) (rd_cases y)
+  && list_eqb catd_eqb (rd_cats x) (rd_cats y) && catd_eqb (rd_default x) (rd_default y)
+  && match rd_noresp x, rd_noresp y with None, None => true | Some u, Some v => catd_eqb u v | _, _ => false end.
+Definition rdec_eqb_shallow (a b : option rdec) : bool :=
+  match a, b with None, None => true | Some x, Some y => rdec_eqb x y | _, _ => false end.
 
 Definition eclass_eqb (a b : eclass) : bool :=
   match a, b with
@@ -90,7 +96,7 @@ Definition eclass_eqb (a b : eclass) : bool :=
 Definition edge_okb (e : redge) : bool := match c_cname (e_cond e) with [] => true | _ => false end.
 
 Definition row_okb (cr : crow) : bool :=
-  forallb edge_okb (r_edges (cr_row cr)) &&
+  forallb edge_okb (r_edges (cr_row cr)) && match cr_uuid cr with [] => true | _ => false end &&
   match r_type (cr_row cr) with
   | TNode cls acts dec0 =>
     match r_node_name (cr_row cr), cr_uuid cr with
